@@ -344,6 +344,20 @@ def r7_named_fields(ctx):
     ok = sym.same(env.get("line_len", [None])[0], f"len({nm}) + 1") and sym.same(env.get("mask", [None])[0], f"(flat_e.reshape(-1, line_len) == {nm} + '=').all(axis=-1)") and \
         sym.same(env.get("e", [None])[0], "EncodedRaggedArray(self._data, RaggedView2(starts, [line_len] * len(starts)))") and sym.same(env.get("flat_e", [None])[0], "e.ravel()")
     ctx.ob(g.where, "a valued key matches when the sub-field starts with the whole key followed by '=' (all len(key)+1 characters)", ok, "", key="C02-R7|key-equals")
+    # trailing sub-fields too short to hold `key=` are left out of the comparison: their False entries go BEHIND the match mask (they are the last sub-fields)
+    pads = [x for x in body_walk(g.node) if isinstance(x, ast.Assign) and u(x.targets[0]) == "mask" and isinstance(x.value, ast.Call) and u(x.value.func) in ("np.append", "np.concatenate", "np.insert", "np.pad")]
+    for x in pads:
+        v = x.value
+        if u(v.func) == "np.append" and len(v.args) == 2:
+            okp = u(v.args[0]) == "mask" and sym.same(v.args[1], "np.full(n_ignored_fields, False)")
+        else:
+            raise Unrecognised(f"{g.where}: padding of the match mask has an unknown form: {u(x)}")
+        ctx.ob(g.where, "the entries for the skipped trailing sub-fields are appended after the matches (prepending them shifts every match to the following sub-field)", okp, u(x),
+               key="C02-R7|mask-padding")
+    ctx.floor("padding of the key match mask", len(pads), 1)
+    st = env.get("starts", [])
+    okc = len(st) == 2 and sym.same(st[0], "self._field_starts.ravel()") and sym.same(st[1], "starts[:len(starts) - n_ignored_fields]")
+    ctx.ob(g.where, "exactly the skipped trailing sub-fields are cut from the compared starts", okc, "; ".join(u(x) for x in st), key="C02-R7|mask-cut")
     h = ix.func(NT, "NamedBufferExtractor.get_field_by_name")
     nm = h.params[1]
     env = _assign_env(h.node)
@@ -371,6 +385,10 @@ def _selection_tables(ctx):
     from .c04 import r2_aligned_stores
     r2_aligned_stores(ctx)   # start/length/record tables stay aligned when lazy chunks are selected, compacted, concatenated
 
+def _late_bound_constants(ctx):
+    from .c05 import r7_late_bound_constants
+    r7_late_bound_constants(ctx)   # format constants are read through cls / self so that subclass formats keep their own
+
 RULES = [
     ("C02-R1", r1_parser_exhaustive),
     ("C02-R2", r2_coordinate_shift),
@@ -383,4 +401,5 @@ RULES = [
     ("C02-T1", _through_time),
     ("C02-R9", _number_parsing),
     ("C02-R10", _selection_tables),
+    ("C02-R11", _late_bound_constants),
 ]
